@@ -133,7 +133,7 @@ func runC04On(c *Ctx, r *Report, pkgRel, typeName, ctorName string, control bool
 
 	for _, m := range methodsOf(c, pkgRel, typeName) {
 		recvT := m.Signature.Recv().Type()
-		if _, isPtr := recvT.Underlying().(*types.Pointer); isPtr {
+		if _, isPtr := recvT.Underlying().(*types.Pointer); isPtr && storesThroughParam(m, 0) {
 			continue // setters (WithByteOrder) are not accessors
 		}
 		// an unexported helper that is not itself a raw getter (e.g. a shared bounds/index
@@ -237,6 +237,11 @@ func c04Method(c *Ctx, r *Report, pkgRel string, m, ctor *ssa.Function, tn *type
 			args = []AV{nil}
 		}
 		args[0] = recvV
+		if _, isPtr := m.Signature.Recv().Type().Underlying().(*types.Pointer); isPtr {
+			// a read-only method with a pointer receiver: the receiver points to such a value
+			ro := &Obj{key: "recv", typ: tn, stores: map[string][]storeRec{"": {{val: recvV}}}}
+			args[0] = APtr{obj: ro, typ: tn}
+		}
 		fr := an.newFrame(m, nil, args)
 		fr.run(cst)
 		id := fnID(m)
@@ -811,7 +816,7 @@ func checkC04(c *Ctx, r *Report) {
 	{
 		var roots []*ssa.Function
 		for _, m := range methodsOf(c, "packet", "Registers") {
-			if _, isPtr := m.Signature.Recv().Type().Underlying().(*types.Pointer); !isPtr {
+			if _, isPtr := m.Signature.Recv().Type().Underlying().(*types.Pointer); !isPtr || !storesThroughParam(m, 0) {
 				roots = append(roots, m)
 			}
 		}
@@ -871,4 +876,37 @@ func calledOnlyByMethodsOf(c *Ctx, m *ssa.Function, tn *types.Named) bool {
 		}
 	}
 	return true
+}
+
+// storesThroughParam: the function stores to memory addressed through its idx-th parameter
+// (a field or element of what it points to).
+func storesThroughParam(fn *ssa.Function, idx int) bool {
+	if idx >= len(fn.Params) {
+		return false
+	}
+	var walk func(v ssa.Value, depth int) bool
+	walk = func(v ssa.Value, depth int) bool {
+		refs := v.Referrers()
+		if refs == nil || depth > 6 {
+			return false
+		}
+		for _, r := range *refs {
+			switch x := r.(type) {
+			case *ssa.Store:
+				if x.Addr == v {
+					return true
+				}
+			case *ssa.FieldAddr:
+				if walk(x, depth+1) {
+					return true
+				}
+			case *ssa.IndexAddr:
+				if x.X == v && walk(x, depth+1) {
+					return true
+				}
+			}
+		}
+		return false
+	}
+	return walk(fn.Params[idx], 0)
 }
